@@ -51,7 +51,10 @@ GOps == [compose |-> <<"G", "G">>, inverse |-> <<"G">>, between |-> <<"G", "G">>
          timeseq |-> <<"D", "G">>, normalize |-> <<"D">>, setIdentity |-> <<>>, setRandom |-> <<>>]
 TOps == [log |-> <<"G">>, rminus |-> <<"G", "G">>, lminus |-> <<"G", "G">>, tassign |-> <<"T">>,
          tsetZero |-> <<>>, tsetRandom |-> <<>>, tneg |-> <<"T">>]
-NJac == [compose |-> 2, inverse |-> 1, between |-> 2, rplus |-> 2, lplus |-> 2, exp |-> 1, log |-> 1,
+\* observers: operations whose result is a vector / matrix / scalar and that write no location
+OOps == [act |-> <<"G">>, adj |-> <<"G">>, transform |-> <<"G">>, rjac |-> <<"T">>, ljac |-> <<"T">>,
+         rjacinv |-> <<"T">>, smallAdj |-> <<"T">>, hat |-> <<"T">>, inner |-> <<"T", "T">>]
+NJac == [act |-> 2, compose |-> 2, inverse |-> 1, between |-> 2, rplus |-> 2, lplus |-> 2, exp |-> 1, log |-> 1,
          rminus |-> 2, lminus |-> 2]
 Masks(op) == IF op \in DOMAIN NJac THEN (IF Small THEN {0, IF NJac[op] = 2 THEN 2 ELSE 1}
                                          ELSE 0..(IF NJac[op] = 2 THEN 3 ELSE 1)) ELSE {0}
@@ -105,6 +108,17 @@ TCall(op, dst, a, b, mask) ==
      /\ hist' = Append(hist, [op |-> op, dst |-> dst, a |-> a, b |-> b, mask |-> mask, ids |-> ids, res |-> rid,
                               post |-> Snapshot(gval, [tval EXCEPT ![TLoc(dst)] = rid])])
 
+\* an observer call: the state does not change at all; the result is still a function of the operand values
+OCall(op, a, b, mask) ==
+  LET kinds == OOps[op]
+      ids == OperandIds(kinds, "-", a, b, FALSE)
+      rid == ResultId(op, ids)
+  IN /\ UNCHANGED <<gval, tval>>
+     /\ memo' = IF Result(op, ids) # 0 THEN memo ELSE Append(memo, <<Key(op, ids), rid>>)
+     /\ next' = IF rid = next THEN next + 1 ELSE next
+     /\ hist' = Append(hist, [op |-> op, dst |-> "-", a |-> a, b |-> b, mask |-> mask, ids |-> ids, res |-> rid,
+                              post |-> Snapshot(gval, tval)])
+
 Pick(kinds, i) ==   \* candidate registers for the i-th non-destination operand
   LET nd == SelectSeq(kinds, LAMBDA k : k # "D") IN
   IF Len(nd) < i THEN {"-"} ELSE IF nd[i] = "G" THEN GAll ELSE TAll
@@ -114,6 +128,8 @@ Step ==
         GCall(op, dst, a, b, m)
   \/ \E op \in DOMAIN TOps, dst \in TMut : \E a \in Pick(TOps[op], 1), b \in Pick(TOps[op], 2), m \in Masks(op) :
         TCall(op, dst, a, b, m)
+  \/ \E op \in DOMAIN OOps : \E a \in Pick(OOps[op], 1), b \in Pick(OOps[op], 2), m \in Masks(op) :
+        OCall(op, a, b, m)
 
 Next == Len(hist) < Depth /\ Step
 Spec == Init /\ [][Next]_vars
